@@ -550,10 +550,14 @@ def _mentions_name(compiler, result, target):
     # Resolve `let`-bound names the same way `Result.rename` will.
     name = compiler.scope.access(
         asty.Name(target, id=mangle(target), ctx=ast.Load())).id
+    # Besides `ast.Name`, the name can occur as a plain string, as in
+    # the capture patterns of `match` or the variable of `except`.
     return any(
-        isinstance(node, ast.Name) and node.id == name
+        value == name or (isinstance(value, list) and name in value)
         for tree in (*result.stmts, *([result.expr] if result.expr else []))
         for node in ast.walk(tree)
+        if not isinstance(node, ast.Constant)
+        for _, value in ast.iter_fields(node)
     )
 
 
